@@ -299,3 +299,72 @@ def finish(prop, tier, level, coverage, assumptions, t0, violations, known_lines
         print("VIOLATION property=%s replay=%s%s" % (prop, path, " no-failing-input-found" if noinput else ""))
     sys.stdout.flush()
     return 1 if violations else 0
+
+
+# ---------------------------------------------------------------- generic correspondence
+def corr_judge(driver, case_file, timeout=1800):
+    """case lines `<id> : … : <impl results>`; the driver prints `<id> M <model results> | J <0/1>`
+    (or passes ERROR lines through). Returns a list of dicts."""
+    lines = [l for l in open(case_file).read().split("\n") if l.strip()]
+    if not lines:
+        return []
+    rc, out = run([driver], input="\n".join(lines) + "\n", timeout=timeout)
+    if rc != 0:
+        raise CheckError("model driver failed: " + out[-2000:])
+    mlines = [l for l in out.split("\n") if l.strip()]
+    if len(mlines) != len(lines):
+        raise CheckError("driver/harness line count mismatch %d vs %d\n%s" % (len(mlines), len(lines), out[-500:]))
+    res = []
+    for l, m in zip(lines, mlines):
+        if " ERROR " in l or " M " not in m:
+            res.append({"line": l, "error": l if " ERROR " in l else m})
+            continue
+        impl = " ".join(l.rsplit(":", 1)[1].split())
+        body = m.split(" M", 1)[1]
+        if " | J " in body:
+            model, j = body.rsplit(" | J ", 1)
+            ok = j.strip() == "1"
+        else:
+            model, ok = body, True
+        res.append({"line": l, "id": l.split(":", 1)[0].split()[0], "impl": impl,
+                    "model": " ".join(model.split()), "spec_ok": ok})
+    return res
+
+
+def corr_generate(harness, n, sd, tag, extra=(), timeout=1800):
+    cases = os.path.join(CACHE, "%s.cases" % tag)
+    env = env_base()
+    env["VERIF_SEED"] = str(sd)
+    rc, out = run([harness, str(n), cases] + list(extra), env=env, timeout=timeout)
+    if rc != 0:
+        raise CheckError("harness %s failed: %s" % (harness, out[-2000:]))
+    return cases
+
+
+def corr_replay(harness, driver, line, tag):
+    """run one case line through implementation and model again"""
+    tin = os.path.join(CACHE, "%s_replay.in" % tag)
+    tout = os.path.join(CACHE, "%s_replay.out" % tag)
+    open(tin, "w").write(line.rsplit(":", 1)[0] + ":\n" if line.count(":") >= 2 else line + "\n")
+    rc, out = run([harness, "--replay", tin, tout], timeout=600)
+    if rc != 0:
+        return None
+    r = corr_judge(driver, tout)
+    return r[0] if r else None
+
+
+def corr_shrink(harness, driver, r, pred, candidates, tag, budget=150):
+    """greedy shrinking: candidates(line) yields smaller case lines; keep one while pred holds"""
+    best = r
+    improved = True
+    while improved and budget > 0:
+        improved = False
+        for cand in candidates(best["line"]):
+            budget -= 1
+            if budget <= 0:
+                break
+            rr = corr_replay(harness, driver, cand, tag)
+            if rr is not None and "error" not in rr and pred(rr):
+                best, improved = rr, True
+                break
+    return best
